@@ -2,7 +2,7 @@
 //! fault injection (H1), pinned-extent monitor (H3b x H1), scheduling-point
 //! controller (H3/M7).
 
-use feoxdb::verif::{FileId, IoDecision, Monitor};
+use feoxdb::verif::{FileId, IoDecision, Monitor, UringEvent};
 use parking_lot::{Mutex, RwLock};
 use std::cell::RefCell;
 use std::collections::HashMap;
@@ -74,6 +74,12 @@ pub struct FaultPlan {
     pub class: Option<(IoClass, u32, u32, Fault)>,
     /// fail every data write of at least this many bytes (others proceed)
     pub data_min_len: Option<(usize, Fault)>,
+    /// io_uring SQEs are numbered and failable like synchronous writes (an injected failure makes the
+    /// kernel complete the SQE with EBADF; "after" is delivered as "before")
+    pub uring: bool,
+    /// make the n-th io_uring_enter of this file fail with errno (4 = EINTR is retried by the store,
+    /// anything else is an indeterminate outcome)
+    pub enter: Vec<(u32, i32)>,
 }
 
 #[derive(Default)]
@@ -90,6 +96,8 @@ struct FileState {
     pin_checks: u64,
     pin_violations: Vec<String>,
     pins_seen: u64,
+    enter_calls: u32,
+    enter_faults: Vec<(u32, i32)>,
 }
 
 pub struct FileMon {
@@ -192,9 +200,12 @@ impl FileMon {
             s.pin_violations.extend(hits);
         }
         let class = classify_write(off, data);
-        let (call, fault) = if uring {
-            // SQE submissions are observed, not failable; they do not get a call index
+        let (call, fault) = if uring && !s.plan.uring {
+            // SQE submissions are observed only; they do not get a call index
             (u32::MAX, None)
+        } else if uring {
+            let (call, fault) = FileMon::decide_len(&mut s, class, data.len());
+            (call, fault.map(|_| Fault::Before))
         } else {
             FileMon::decide_len(&mut s, class, data.len())
         };
@@ -208,6 +219,22 @@ impl FileMon {
             Some(Fault::Before) => IoDecision::FailBefore(5),
             Some(Fault::After) => IoDecision::FailAfter(5),
         }
+    }
+
+    fn on_enter(&self) -> Option<i32> {
+        let mut s = self.state.lock();
+        let n = s.enter_calls;
+        s.enter_calls += 1;
+        let errno = s.plan.enter.iter().find(|(i, _)| *i == n).map(|(_, e)| *e);
+        if let Some(e) = errno {
+            s.enter_faults.push((n, e));
+        }
+        errno
+    }
+
+    pub fn enter_stats(&self) -> (u32, Vec<(u32, i32)>) {
+        let s = self.state.lock();
+        (s.enter_calls, s.enter_faults.clone())
     }
 
     fn on_fsync(&self) -> IoDecision {
@@ -395,6 +422,7 @@ impl SchedCtl {
 thread_local! {
     static THREAD_RNG: RefCell<Option<Rng>> = const { RefCell::new(None) };
     static THREAD_PREADS: std::cell::Cell<u64> = const { std::cell::Cell::new(0) };
+    static IN_ACTION: std::cell::Cell<bool> = const { std::cell::Cell::new(false) };
 }
 
 /// Number of device reads (value loads) the calling thread has performed so far.
@@ -407,14 +435,85 @@ pub fn thread_preads() -> u64 {
 pub struct Hub {
     files: RwLock<HashMap<FileId, Arc<FileMon>>>,
     sched: RwLock<Option<Arc<SchedCtl>>>,
+    uring: Mutex<UringBuffers>,
+    /// called once for every file that is written to without being watched (e.g. a migration's
+    /// temporary destination); used to make something happen "while the other side is busy"
+    racers: RwLock<Vec<(u64, Arc<dyn Fn(FileId) + Send + Sync>)>>,
+    seen_unwatched: Mutex<std::collections::HashSet<FileId>>,
+    /// run on the arriving thread at every scheduling point (never re-entered from inside itself)
+    action: RwLock<Option<Arc<dyn Fn(&'static str) + Send + Sync>>>,
+}
+
+/// Buffers the io_uring write path has handed to the kernel (C20: "reuse of a buffer the kernel may
+/// still be writing from"). A buffer is in flight from the moment its SQE is queued until its
+/// completion is reaped; the I/O layer must not drop its reference to it in between - after a
+/// failed io_uring_enter that means never (the store leaks such buffers on purpose).
+#[derive(Default)]
+pub struct UringBuffers {
+    in_flight: HashMap<usize, (usize, u32)>,
+    pub queued: u64,
+    pub completed: u64,
+    pub completed_with_error: u64,
+    pub dropped_after_completion: u64,
+    pub dropped_never_queued: u64,
+    pub violations: Vec<String>,
 }
 
 impl Monitor for Hub {
+    fn uring_enter(&self, file: FileId, _queued: usize, _completed: usize) -> Option<i32> {
+        let mon = self.files.read().get(&file).cloned();
+        mon.and_then(|m| m.on_enter())
+    }
+    fn uring_event(&self, _file: FileId, event: UringEvent) {
+        let mut u = self.uring.lock();
+        match event {
+            UringEvent::Queued { ptr, len } => {
+                u.queued += 1;
+                let e = u.in_flight.entry(ptr).or_insert((len, 0));
+                e.1 += 1;
+            }
+            UringEvent::Completed { ptr, result } => {
+                u.completed += 1;
+                if result < 0 {
+                    u.completed_with_error += 1;
+                }
+                let gone = match u.in_flight.get_mut(&ptr) {
+                    Some(e) => {
+                        e.1 -= 1;
+                        e.1 == 0
+                    }
+                    None => false,
+                };
+                if gone {
+                    u.in_flight.remove(&ptr);
+                }
+            }
+            UringEvent::Dropped { ptr, len } => {
+                if let Some((qlen, n)) = u.in_flight.get(&ptr).copied() {
+                    if u.violations.len() < 8 {
+                        u.violations.push(format!("the I/O layer dropped its reference to the {len}-byte buffer at {ptr:#x} while {n} write(s) of {qlen} bytes queued from it had not completed (the kernel may still read it)"));
+                    }
+                } else if u.queued > 0 {
+                    u.dropped_after_completion += 1;
+                } else {
+                    u.dropped_never_queued += 1;
+                }
+            }
+        }
+    }
     fn io_write(&self, file: FileId, offset: u64, data: &[u8], path: &'static str) -> IoDecision {
         let mon = self.files.read().get(&file).cloned();
         match mon {
             Some(mon) => mon.on_write(offset, data, path),
-            None => IoDecision::Proceed,
+            None => {
+                if !self.racers.read().is_empty() && self.seen_unwatched.lock().insert(file) {
+                    let racers: Vec<_> = self.racers.read().iter().map(|(_, r)| r.clone()).collect();
+                    for r in racers {
+                        r(file);
+                    }
+                }
+                IoDecision::Proceed
+            }
         }
     }
     fn io_fsync(&self, file: FileId) -> IoDecision {
@@ -433,6 +532,13 @@ impl Monitor for Hub {
     fn sched(&self, point: &'static str, _a: u64, _b: u64) {
         if point == "read.before_pread" {
             THREAD_PREADS.with(|c| c.set(c.get() + 1));
+        }
+        let action = self.action.read().clone();
+        if let Some(action) = action {
+            if !IN_ACTION.with(|c| c.replace(true)) {
+                action(point);
+                IN_ACTION.with(|c| c.set(false));
+            }
         }
         let ctl = self.sched.read().clone();
         if let Some(ctl) = ctl {
@@ -463,7 +569,7 @@ static HUB: OnceLock<Arc<Hub>> = OnceLock::new();
 
 pub fn hub() -> &'static Arc<Hub> {
     HUB.get_or_init(|| {
-        let hub = Arc::new(Hub { files: RwLock::new(HashMap::new()), sched: RwLock::new(None) });
+        let hub = Arc::new(Hub { files: RwLock::new(HashMap::new()), sched: RwLock::new(None), uring: Mutex::new(UringBuffers::default()), racers: RwLock::new(Vec::new()), seen_unwatched: Mutex::new(Default::default()), action: RwLock::new(None) });
         feoxdb::verif::install(hub.clone());
         hub
     })
@@ -480,6 +586,29 @@ impl Hub {
 
     pub fn unwatch(&self, mon: &FileMon) {
         self.files.write().remove(&mon.id);
+    }
+
+    /// Register a closure called once per unwatched file at its first device write; returns a handle for `remove_racer`.
+    pub fn add_racer(&self, racer: Arc<dyn Fn(FileId) + Send + Sync>) -> u64 {
+        static NEXT: AtomicU64 = AtomicU64::new(1);
+        let id = NEXT.fetch_add(1, Ordering::Relaxed);
+        self.racers.write().push((id, racer));
+        id
+    }
+
+    pub fn remove_racer(&self, id: u64) {
+        self.racers.write().retain(|(i, _)| *i != id);
+    }
+
+    /// (queued, completed, completed with error, still in flight = leaked on purpose, violations)
+    pub fn uring_stats(&self) -> (u64, u64, u64, usize, Vec<String>) {
+        let u = self.uring.lock();
+        (u.queued, u.completed, u.completed_with_error, u.in_flight.len(), u.violations.clone())
+    }
+
+    /// Install (or remove) a closure run by the arriving thread at every scheduling point.
+    pub fn set_action(&self, action: Option<Arc<dyn Fn(&'static str) + Send + Sync>>) {
+        *self.action.write() = action;
     }
 
     pub fn set_sched(&self, ctl: Option<Arc<SchedCtl>>) {
